@@ -64,16 +64,87 @@ def solve_one(ob, timeout_ms=10000, use_cvc5=True, recheck_cvc5=False):
     elif r == z3.unknown:
         if solve_relaxed(ob["pc"], ob["goal"], timeout_ms=min(timeout_ms, 8000)) == "unsat":
             status, backend = "unsat", "z3-nlsat(real relaxation)"
+        elif solve_without_lambdas(ob["pc"], ob["goal"], timeout_ms=min(timeout_ms, FIRST_TRY_MS)) == "unsat":
+            status, backend = "unsat", "z3(hypotheses with lambda terms dropped)"
         elif use_cvc5:
             c = run_cvc5(smt2_of(ob["pc"], ob["goal"]), max(5, timeout_ms / 1000))
             if c in ("unsat", "sat"):
                 status, backend = c, "cvc5"
+        if status == "unknown":
+            sm = small_model_search(ob["pc"], ob["goal"], timeout_ms=min(timeout_ms, FIRST_TRY_MS))
+            if sm is not None:
+                status, backend, model = "sat", "z3(small-size counter-model search)", sm
     res = {"name": ob["name"], "status": status, "backend": backend, "time_s": round(time.time() - t0, 4), "model": model,
            "meta": ob.get("meta", {})}
     if recheck_cvc5 and status == "unsat" and backend == "z3":
         c = run_cvc5(smt2_of(ob["pc"], ob["goal"]), max(5, timeout_ms / 1000))
         res["cvc5_recheck"] = c
     return res
+
+
+def _has_lambda(t, memo):
+    k = t.get_id()
+    if k in memo:
+        return memo[k]
+    if z3.is_quantifier(t):
+        r = t.is_lambda() or _has_lambda(t.body(), memo)
+    else:
+        r = any(_has_lambda(c, memo) for c in t.children())
+    memo[k] = r
+    return r
+
+
+def solve_without_lambdas(pc, goal, timeout_ms=3000):
+    """z3's array theory is incomplete for lambda terms whose body is quantified (CNT over a derived mask); dropping the hypotheses
+    that contain a lambda only weakens what may be used, so `unsat` is still a proof."""
+    memo = {}
+    if _has_lambda(goal, memo):
+        return "unknown"
+    keep = [h for h in pc if not _has_lambda(h, memo)]
+    if len(keep) == len(pc):
+        return "unknown"
+    s = z3.Solver()
+    s.set("timeout", timeout_ms)
+    s.add(*keep)
+    s.add(z3.Not(goal))
+    return "unsat" if s.check() == z3.unsat else "unknown"
+
+
+def _int_consts(fs):
+    seen, out, stack = set(), {}, list(fs)
+    while stack:
+        t = stack.pop()
+        k = t.get_id()
+        if k in seen:
+            continue
+        seen.add(k)
+        if z3.is_quantifier(t):
+            stack.append(t.body())
+            continue
+        if z3.is_const(t) and t.decl().kind() == z3.Z3_OP_UNINTERPRETED and z3.is_int(t):
+            out[str(t)] = t
+        stack.extend(t.children())
+    return list(out.values())
+
+
+def small_model_search(pc, goal, timeout_ms=3000, bound=3):
+    """a counter-model of the obligation restricted to small sizes is a counter-model of the obligation: when the quantified
+    hypotheses make z3 give up, bounding every integer unknown to 0..bound often lets model-based instantiation finish"""
+    ints = _int_consts(list(pc) + [goal])
+    if not ints:
+        return None
+    s = z3.Solver()
+    s.set("timeout", timeout_ms)
+    s.add(*pc)
+    s.add(z3.Not(goal))
+    for c in ints:
+        s.add(c >= -1, c <= bound)
+    if s.check() == z3.sat:
+        try:
+            return model_to_dict(s.model())
+        except Exception:
+            return {}
+    return None
 
 
 def vacuity_check(pc, timeout_ms=2000):
